@@ -77,5 +77,6 @@ class References:
     self._add_reference(item, "items", append = append)
 
   def _initialize_references(self):
+    self._check_items_not_self()
     for i in range(len(self.items)):
       self.items[i].line = self._line_for_ref_symbol(self.items[i].line)
